@@ -539,7 +539,9 @@ namespace photon
             auto mode = VERIF_TUNABLE(T_SLEEPQ_WALK);
             if (likely(!(mode & 6))) return;
             for (size_t i = 0; i < q.size(); ++i)
-                if (q[i]->state == states::SLEEPING && q[i]->ts_wakeup <= since) {
+                // (with several vCPUs the state is not read: another vCPU may be changing it right now; a sleeper
+                // it interrupted stays in the heap for at most one more pass, which the threshold below absorbs)
+                if (q[i]->ts_wakeup <= since && (!(mode & 2) || q[i]->state == states::SLEEPING)) {
                     if (mode & 2) VERIF_EVENT(E_SLEEPQ_BAD, 3, i);
                     // bit 2 (value 4), usable with several vCPUs: another vCPU may set `now` back a little,
                     // which can explain one missed pass, never a long run of them
